@@ -4,6 +4,7 @@ import (
 	"bytes"
 	"encoding/json"
 	"fmt"
+	"math/big"
 	"strconv"
 	"strings"
 	"sync/atomic"
@@ -364,6 +365,15 @@ func runPINs() {
 	for _, s := range []string{"1", "12", "123", "1234", "12345", "123456", "1234567", "12345678", "999999", "1000000", "4294967295", "4294967296", "18446744073709551616", " 1", "1 ", "+1", "1.0", "1e3", "0x10"} {
 		list = append(list, s)
 	}
+	// numbers congruent to a valid PIN modulo 2^32 / 2^64 / 10^7..10^20 (wrapping accumulators, parsers
+	// that keep the last digits)
+	for _, v := range []int64{0, 1, 7531, 999999} {
+		b := big.NewInt(v)
+		for _, bits := range []uint{32, 63, 64, 65} {
+			list = append(list, new(big.Int).Add(b, new(big.Int).Lsh(big.NewInt(1), bits)).String())
+		}
+		list = append(list, fmt.Sprintf("1%06d", v), fmt.Sprintf("1%019d", v), fmt.Sprintf("1%039d", v))
+	}
 	vk.Parallel(len(list), func(i int) { checkPINText(list[i]) })
 	family("pin/text(every string of length 0..8 over {0,9,'x','-'} + boundary numbers)", int64(len(list)), int64(len(list)))
 	R.Sample(map[string]any{"family": "pin/text", "input": "9999999", "reference": "must-reject (more than six digits)"})
@@ -486,12 +496,23 @@ func runTaskTypes() {
 
 	// reject side: numbers 0..20 outside 1..13 (and a few large ones)
 	var k int64
-	for _, s := range []string{"0", "14", "15", "16", "17", "18", "19", "20", "99", "256", "4294967297", "99999999999999999999"} {
+	rejectNumbers := []string{"0", "14", "15", "16", "17", "18", "19", "20", "99", "256", "4294967297", "99999999999999999999"}
+	// numbers that are congruent to a valid code modulo a power of two or ten (an accumulator that
+	// wraps, or a parser that keeps only the last digits, turns them into valid codes)
+	for v := 1; v <= 13; v++ {
+		b := new(big.Int).SetInt64(int64(v))
+		for _, bits := range []uint{8, 16, 31, 32, 63, 64, 65, 128} {
+			rejectNumbers = append(rejectNumbers, new(big.Int).Add(b, new(big.Int).Lsh(big.NewInt(1), bits)).String())
+		}
+		rejectNumbers = append(rejectNumbers, new(big.Int).Add(b, new(big.Int).Lsh(big.NewInt(3), 64)).String(),
+			fmt.Sprintf("1%039d", v), fmt.Sprintf("1%019d", v), fmt.Sprintf("1%02d", v))
+	}
+	for _, s := range rejectNumbers {
 		checkTaskTypeNumber(s, "json")
 		checkTaskTypeNumber(s, "tsv")
 		k++
 	}
-	family("tasktype/number(0, 14..20 and large numbers via JSON and TSV)", 2*k, k)
+	family("tasktype/number(0, 14..20, large numbers and every valid code + 2^8/16/31/32/63/64/65/128, + 3*2^64, 10^2/19/39 + code, via JSON and TSV)", 2*k, k)
 
 	// reject side: every single-character corruption of every name (ASCII alphabet)
 	list := []string{"", " ", "x", "DOOR", "CONTROL", "ENABLE", "UNLOCK", "LOCK DOORS", "UNKNOWN TASK", "CONTROL DOOR UNLOCK DOOR"}
